@@ -437,10 +437,10 @@ def r_xp_elements(ck: Checker, modname: str = XP, rule: str = "R-XP-ELEMENTS", m
     """Bookkeeping of XPathTransformer.xpath: every compiled element has a class, and turning an element into an
     'anywhere' element keeps its class, field and index."""
     c = ck.repo.cls(modname, "XPathTransformer")
-    fn = next((st for st in c.node.body if isinstance(st, ast.FunctionDef) and st.name == "xpath"), None)
-    if fn is None:
+    if not ck.repo.has_func(modname, "XPathTransformer.xpath"):
         raise Unsupported("XPathTransformer.xpath not found")
-    f = Func(c.mod, "XPathTransformer.xpath", fn, c.node)
+    f = ck.repo.func(modname, "XPathTransformer.xpath")
+    fn = f.node
     sem = _FactSem()
     Interp(sem, max_rounds=8).block(fn.body, {frozenset()})
     n = 0
